@@ -439,6 +439,54 @@ static void run_weighted(void)
             return;
         }
     }
+    /* the same samples as a time series (value x[i] held for the duration w[i], closed at the end): its summary is the
+     * summary of the samples that lasted - count, minimum and maximum are theirs, the mean is the time average */
+    {
+        struct cmb_timeseries ts;
+        cmb_timeseries_initialize(&ts);
+        double t = 0;
+        for (int i = 0; i < n; i++) {
+            cmb_timeseries_add(&ts, x[i], t);
+            t += w[i];
+        }
+        if (n > 0) {
+            cmb_timeseries_finalize(&ts, t);
+        }
+        struct cmb_wtdsummary t2;
+        memset(&t2, 0, sizeof t2);
+        cmb_timeseries_summarize(&ts, &t2);
+        vx_transition();
+        /* durations are differences of sums of the weights: a weight can be lost against a large clock value, skip those */
+        bool exact_durations = ts.ds.count == (uint64_t)n + (n > 0);
+        for (int i = 0; exact_durations && i < n; i++) {
+            exact_durations = ts.wa[i] == w[i];
+        }
+        if (exact_durations) {
+            if (cmb_wtdsummary_count(&t2) != cmb_wtdsummary_count(&s)) {
+                FAIL("weighted:timeseries-summary:count", "summary of the time series counts %" PRIu64 " samples, %" PRIu64
+                     " have a duration", cmb_wtdsummary_count(&t2), cmb_wtdsummary_count(&s));
+                cmb_timeseries_terminate(&ts);
+                return;
+            }
+            if (cmb_wtdsummary_count(&s) > 0
+                && (cmb_wtdsummary_min(&t2) != cmb_wtdsummary_min(&s) || cmb_wtdsummary_max(&t2) != cmb_wtdsummary_max(&s))) {
+                FAIL("weighted:timeseries-summary:min-max", "summary of the time series has min/max %g/%g, the samples that "
+                     "have a duration %g/%g", cmb_wtdsummary_min(&t2), cmb_wtdsummary_max(&t2), cmb_wtdsummary_min(&s),
+                     cmb_wtdsummary_max(&s));
+                cmb_timeseries_terminate(&ts);
+                return;
+            }
+            if (cmb_wtdsummary_count(&s) > 0 && memcmp(&t2, &s, sizeof s) != 0) {
+                FAIL("weighted:timeseries-summary:moments", "summary of the time series (mean %.17g, variance %.17g) differs "
+                     "from the weighted summary of the same (value, duration) pairs (mean %.17g, variance %.17g)",
+                     cmb_wtdsummary_mean(&t2), cmb_wtdsummary_variance(&t2), cmb_wtdsummary_mean(&s),
+                     cmb_wtdsummary_variance(&s));
+                cmb_timeseries_terminate(&ts);
+                return;
+            }
+        }
+        cmb_timeseries_terminate(&ts);
+    }
     /* merges of weighted summaries */
     for (int k = 0; k <= n; k++) {
         for (int order = 0; order < 2; order++) {
